@@ -16,7 +16,7 @@ from core.common import f2b, b2f, close
 from core import impl as I
 
 ID = "C15"
-LEAN_MODULES = ["AcnProofs.C15", "AcnProofs.C15E2E"]
+LEAN_MODULES = ["AcnProofs.C15", "AcnProofs.C15E2E", "AcnProofs.Lemmas.CodeTieFit"]
 DRIVER = "drv_C15"
 REQUIRED_THEOREMS = [
     "Acn.C15.trunc_eq_floor", "Acn.C15.trunc_eq_ceil_before_epoch", "Acn.C15.zero_period_rejected",
